@@ -61,6 +61,22 @@ def _explore(out, tier, seed, facts, replay):
         (it_, il_, is_), _ = c["impl"]
         if [float(x) for x in il_] != [float(x) for x in el_] or [float(x) for x in it_] != [float(x) for x in et_] or [float(x) for x in is_] != [float(x) for x in es_]:
             out.violation("coordinates-differ", "the dataset reports times %r, lead times %r, locations %r; the inputs' common coordinates are %r, %r, %r" % (it_, il_, is_, et_, el_, es_), ds)
+        # (0) under a climatology every slice is reduced by the climatology's values AT THE SAME coordinates: the slices asked one after
+        # the other on one dataset object are those a fresh dataset gives for each of them
+        if "clim" in ds["cfg"]:
+            dseq = datagen.impl_data(ds)
+            for ax in (2, 0, 1):
+                if isinstance(dseq, tuple) or int(sizes[ax]) < 2:
+                    continue
+                for ai in range(int(sizes[ax])):
+                    a_ = datagen.impl_request(dseq, (["fcst"], 0, ax, ai))
+                    b_ = datagen.impl_request(ds, (["fcst"], 0, ax, ai))
+                    nf += 1
+                    same_ = (a_ == b_) if (isinstance(a_, tuple) or isinstance(b_, tuple)) else datatie.compare_cols(a_, b_)
+                    if not same_:
+                        out.violation("climatology-at-other-coordinates", "with a climatology, slice %d along %s asked after slices 0..%d on one dataset object gives %s; "
+                                      "asked alone %s" % (ai, datagen.AXES[ax], ai - 1, str(a_)[:100], str(b_)[:100]), {"dataset": ds, "request": [["fcst"], 0, ax, ai]})
+                        break
         g = rng.randrange(ninp)
         # (1) permute the dimension entries of one input
         if nodup(ds["inputs"][g]):
